@@ -1,4 +1,134 @@
-(* Properties/C47.v -- placeholder while the theory is being written *)
-From BV Require Import Lib.Bytes Model.OsUtils.
-Theorem C47_placeholder : True. Proof. exact I. Qed.
-Print Assumptions C47_placeholder.
+(* Properties/C47.v -- Path and line utilities satisfy their algebraic laws.
+   Statements only; proofs are in Theory/OsUtils{Path,Lines,Date}.v, the model in
+   Model/OsUtils.v (hand model of crates/osutils/src/{path,lib,time}.rs and of the
+   pyo3 wrappers in crates/osutils-py/src/lib.rs; Unix).
+
+   Paths are byte strings; is_inside d f := components f starts with components d.
+   A time is (secs, frac9): secs = floor t, frac9 = the fraction rounded to 9 decimals
+   (0..10^9; 10^9 = "rounded up to 1.000000000"); the f64 <-> decimal conversion is
+   outside Coq.  unpack returns UOk timestamp (digits, number of digits) offset. *)
+From Coq Require Import ZArith NArith List Bool.
+From BV Require Import Lib.Bytes Model.OsUtils Theory.OsUtilsPath Theory.OsUtilsLines Theory.OsUtilsDate Theory.OsUtilsExamples.
+Import ListNotations.
+
+(* ---- minimum_path_selection: any list of paths (any spelling, duplicates allowed) ---- *)
+Theorem C47_min_selection :
+  forall P : list bytes,
+    let S := minimum_path_selection P in
+    (forall s, In s S -> In s P) /\
+    (forall p, In p P ->
+       exists s, In s S /\ is_inside s p = true /\
+                 forall s', In s' S -> is_inside s' p = true -> s' = s) /\
+    (forall s t, In s S -> In t S -> is_inside s t = true -> s = t).
+Proof.
+  intros P S. split; [apply min_sel_subset|]. split; [apply min_sel_exactly_one|apply min_sel_antichain].
+Qed.
+Print Assumptions C47_min_selection.
+
+(* ---- is_inside_any is the disjunction of is_inside ... ---- *)
+Theorem C47_inside_any_agrees :
+  forall ds f, is_inside_any ds f = true <-> exists d, In d ds /\ is_inside d f = true.
+Proof. exact is_inside_any_spec. Qed.
+Print Assumptions C47_inside_any_agrees.
+
+Theorem C47_inside_or_parent_of_any_agrees :
+  forall ds f, is_inside_or_parent_of_any ds f = true <->
+               exists d, In d ds /\ (is_inside d f = true \/ is_inside f d = true).
+Proof. exact is_inside_or_parent_of_any_spec. Qed.
+Print Assumptions C47_inside_or_parent_of_any_agrees.
+
+(* ... and the selection covers exactly the region the input covers *)
+Theorem C47_min_selection_same_region :
+  forall P f, is_inside_any (minimum_path_selection P) f = is_inside_any P f.
+Proof. exact min_sel_same_region. Qed.
+Print Assumptions C47_min_selection_same_region.
+
+(* ---- splitpath / joinpath ---- *)
+Theorem C47_split_join :
+  forall p, normalised p = true ->
+    exists segs, splitpath p = Ok segs /\ joinpath segs = Ok p.
+Proof. exact split_join. Qed.
+Print Assumptions C47_split_join.
+
+Theorem C47_join_split :
+  forall segs, forallb valid_seg segs = true ->
+    exists p, joinpath segs = Ok p /\ splitpath p = Ok segs /\ normalised p = true.
+Proof. exact join_split. Qed.
+Print Assumptions C47_join_split.
+
+(* on every string: splitpath fails exactly when some piece is "..", otherwise it returns
+   valid segments, and re-joining and re-splitting them is stable *)
+Theorem C47_splitpath_total :
+  forall p,
+    match splitpath p with
+    | Ok segs => forallb valid_seg segs = true /\ ~ In DOTDOT (split1 SLASH p) /\
+                 exists q, joinpath segs = Ok q /\ splitpath q = Ok segs
+    | Err e => e = DOTDOT /\ In DOTDOT (split1 SLASH p)
+    end.
+Proof.
+  intros p. pose proof (splitpath_result p) as R.
+  destruct (splitpath p) as [segs|e] eqn:E; [|exact R].
+  destruct R as [Hv Hn]. split; [exact Hv|]. split; [exact Hn|].
+  eapply splitpath_idempotent. exact E.
+Qed.
+Print Assumptions C47_splitpath_total.
+
+(* ---- lines: Python's split_lines (the pyo3 iterator on a one-chunk list) ---- *)
+Theorem C47_lines_concat :
+  forall t, concat (py_split_lines t) = t /\ lines_wf (py_split_lines t) /\
+            forall ls, lines_wf ls -> concat ls = t -> ls = py_split_lines t.
+Proof.
+  intros t. rewrite py_split_lines_spec. split; [apply split_lines_concat|].
+  split; [apply split_lines_wf|].
+  intros ls Hw <-. symmetry. apply split_lines_unique. exact Hw.
+Qed.
+Print Assumptions C47_lines_concat.
+
+(* ---- chunking independence: Python's chunks_to_lines and the core iterator of lib.rs ---- *)
+Theorem C47_chunking_independent :
+  forall cs t, concat cs = t -> chunks_to_lines cs = py_split_lines t.
+Proof. intros cs t <-. rewrite py_split_lines_spec. apply chunks_to_lines_spec. Qed.
+Print Assumptions C47_chunking_independent.
+
+Theorem C47_core_chunking_independent :
+  forall cs t, concat cs = t ->
+    core_chunks_to_lines cs = split_lines t /\ split_lines t = py_split_lines t.
+Proof.
+  intros cs t <-. split; [apply core_chunks_to_lines_spec|symmetry; apply py_split_lines_spec].
+Qed.
+Print Assumptions C47_core_chunking_independent.
+
+(* ---- dates ---- *)
+Open Scope Z_scope.
+
+(* guard that remains after the repair of F-C47a/b/c: whole-minute offset below 100 h and a
+   local time within years 0..9999 (the modelled range of chrono's %Y); negative times,
+   negative offsets and the carry of a fraction that rounds to 1.000000000 are covered *)
+Theorem C47_date_roundtrip_guarded :
+  forall secs frac9 offset,
+    0 <= frac9 <= NANO -> offset mod 60 = 0 -> Z.abs offset < 360000 ->
+    TS_MIN <= secs + carry_of frac9 + offset <= TS_MAX ->
+    exists s, format_highres_date secs frac9 offset = Some s /\
+              unpack_highres_date s = UOk (secs + carry_of frac9) (frac9 mod NANO, 9%nat) offset /\
+              (secs + carry_of frac9) * NANO + frac9 mod NANO = secs * NANO + frac9.
+Proof. exact date_roundtrip_bounds. Qed.
+Print Assumptions C47_date_roundtrip_guarded.
+
+(* the same with the executable guard used by the harness *)
+Theorem C47_date_roundtrip_guarded_bool :
+  forall secs frac9 offset,
+    date_in_range secs frac9 offset = true ->
+    exists s, format_highres_date secs frac9 offset = Some s /\
+              unpack_highres_date s = UOk (secs + carry_of frac9) (frac9 mod NANO, 9%nat) offset.
+Proof. exact date_roundtrip. Qed.
+Print Assumptions C47_date_roundtrip_guarded_bool.
+
+(* the +-HHMM notation has no seconds: an offset that is not a whole number of minutes comes
+   back truncated AND shifts the timestamp (t = 10, offset = 30 comes back as t = 40, offset = 0) *)
+Theorem C47_date_subminute_offset_refuted :
+  exists secs frac9 offset s,
+    0 <= frac9 < NANO /\ Z.abs offset < 360000 /\
+    format_highres_date secs frac9 offset = Some s /\
+    unpack_highres_date s = UOk (secs + offset) (frac9, 9%nat) 0 /\ offset <> 0.
+Proof. exact date_subminute_offset_refuted. Qed.
+Print Assumptions C47_date_subminute_offset_refuted.
